@@ -475,7 +475,7 @@ def run_arith(rep, facts):
         ("ParamsState::drive", RQ + "ParamsState::drive", [], None, set(), None),
         ("HeaderState::drive", RQ + "HeaderState::drive", [], None, set(), None),
         ("parse_stream", RQ + "ParamsStateInner::parse_stream", [], None, set(), None),
-        ("parse_buffered", RQ + "ParamsStateInner::parse_buffered", [], None, set(), ("post",)),
+        ("parse_buffered", RQ + "ParamsStateInner::parse_buffered", [], None, set(), ("post", "refuted", "mixed")),
     ]
     total = 0
     used = {}
@@ -505,9 +505,19 @@ def run_arith(rep, facts):
                 if Lr is None or not e.ctx.le(Lr, L):
                     post_bad.append(("the returned remainder may be longer than data", e.trace))
         groups = {}
+        # "mixed": where only some kinds are armed (value-level arithmetic the domain cannot follow), a split / slice / index site that is
+        # derivable on some paths and not on others is still reported -- the code itself checks the bound on one way to the operation and
+        # not on another (Engler et al.: one of the two beliefs is wrong)
+        mixed = set()
+        if armed is not None and "mixed" in armed:
+            by_site = {}
+            for o in it.obligations:
+                if o.kind in ("split", "slice", "index"):
+                    by_site.setdefault((o.kind, o.loc), set()).add(bool(o.ok))
+            mixed = {k for k, v in by_site.items() if v == {True, False}}
         for o in it.obligations:
-            if armed is not None and o.kind not in armed:
-                continue
+            if armed is not None and o.kind not in armed and not ("refuted" in armed and o.refuted) and not ((o.kind, o.loc) in mixed and not o.ok):
+                continue        # ("refuted": operations the path condition proves out of range are reported even where underivable ones are not armed)
             txt = re.sub(r"[#@]\d+", "", o.text)
             groups.setdefault((o.kind, txt), []).append(o)
         bykind = {}
